@@ -361,13 +361,26 @@ def stage_w_rel(rep, rng, n):
             calls.append(('path.eq', [a, b])); res.append(pa == pb)
             if (pa == pb) and hash(pa) != hash(pb):
                 rep.fail('equal paths with different hashes: %r %r' % (a, b), {'exprs': [a, b], 'law': 'eq_hash'})
-    for _ in range(n):
-        e = gen_mk(rng, rep, 1)
+    # the corner every argument combination of realize meets: the root directory itself (empty suffix, written in several
+    # ways) and a one-component path, under every root, with and without the destdir flag, with and without a DESTDIR
+    # variable, with and without a value for the root variable - enumerated, then random paths
+    corner = [([0, s0, [0, r], dd, dr], dv, vset, ex0)
+              for s0 in ('', '.', 'a/..', 'x', 'x/y') for r in range(NROOTS) for dd in ([], [True], [False])
+              for dr in ([], [True]) for dv in ([], ['$(DESTDIR)']) for vset in (True, False) for ex0 in (False, True)]
+    rng.shuffle(corner)
+    corner = corner[:max(200, n // 2)]
+    for k in range(len(corner) + n):
+        if k < len(corner):
+            e, dvar, vset, ex = corner[k]
+            vs = [['$(v%d)' % i] if vset else [] for i in range(NROOTS)]
+            vsep, loc = rng.random() < 0.8, rng.random() < 0.8
+        else:
+            e = gen_mk(rng, rep, 1)
+            vs = [rng.choice([[], [rng.choice(VAR_STRINGS)], [rng.choice(VAR_STRINGS)]]) for _ in range(NROOTS)]
+            dvar = rng.choice([[], ['$(DESTDIR)'], ['/dest']])
+            ex, vsep, loc = rng.random() < 0.4, rng.random() < 0.8, rng.random() < 0.8
         if any(s.startswith('~') for s in expr_strings(e)):
             continue
-        vs = [rng.choice([[], [rng.choice(VAR_STRINGS)], [rng.choice(VAR_STRINGS)]]) for _ in range(NROOTS)]
-        dvar = rng.choice([[], ['$(DESTDIR)'], ['/dest']])
-        ex, vsep, loc = rng.random() < 0.4, rng.random() < 0.8, rng.random() < 0.8
         for fl, cls in ((0, P), (1, W)):
             p = try_eval(cls, roots, e)
             if p is None:
@@ -578,6 +591,14 @@ def check_path_laws(rep, cls, roots, s, ri, dd, dr, p, stats):
             fail('confined', 'realised %r is outside %r' % (real, base))
         if p.realize({p.root: '$(v)'}, localize=False) != ('$(v)/' + p.suffix if p.suffix else '$(v)'):
             fail('realize_join', 'realize() = %r' % (p.realize({p.root: '$(v)'}, localize=False),))
+        # ... and with a DESTDIR variable defined: a path carrying the destdir flag is realised below DESTDIR + root (also
+        # when it is the root directory itself), a path without the flag ignores DESTDIR
+        from bfg9000.platforms.basepath import DestDir as _DD
+        got_dd = p.realize({p.root: '$(v)', _DD.destdir: '$(DESTDIR)'}, localize=False)
+        want_dd = ('$(DESTDIR)' if p.destdir else '') + ('$(v)/' + p.suffix if p.suffix else '$(v)')
+        if got_dd != want_dd:
+            fail('realize_join', 'realize() with a DESTDIR variable = %r, ordinary joining gives %r (destdir flag %r)' % (
+                got_dd, want_dd, bool(p.destdir)))
         # the hypothesis of C12_realize_join (base value not ending in a separator) probed on the real code: a base
         # directory that is the file-system root (string- or path-valued); bounded number of probes per run
         if stats.get('probe:base-fs-root', 0) < 60:
@@ -836,7 +857,7 @@ def run(rep):
     found = stage_oracle_paths(rep, rng, n * mult, sweep_exprs() if thorough else ())
     found += stage_oracle_pairs(rep, rng, n // 2 * mult)
     found += stage_oracle_sets(rep, rng, n // 3 * mult)
-    if dis and not found:
+    if dis and not rep.n_with_input:
         i, call, iv, mv = dis[0]
         rep.fail('W:%s - model and implementation disagree (%d cases), e.g. %r: impl %r, model %r' % (
             call[0], len(dis), call[1], iv, mv),
